@@ -2,7 +2,8 @@ CONSTANTS
     Kinds = {"estargz", "legacy", "zstd", "ext"}
     BLens = {"0", "1", "lt", "eq", "gt"}
     Muts = {"none", "gzmagic", "xlen0", "xlenshort", "xlenlong", "lenshort", "lenlong", "subshort", "sgmagic", "zmagic"}
-    Offs = {"zero", "inside", "size", "beyond", "max", "nonhex"}
+    Offs = {"zero", "small", "inside", "size", "beyond", "near63", "max", "nonhex"}
+    Lens = {"ok", "zero", "wrap", "max63", "big62", "max64"}
     Opts = {"none", "inside", "end", "beyond"}
     GuardLen = TRUE
 INIT Init
